@@ -72,6 +72,13 @@ def gen(rng, tier):
             for rx2 in ([RX2DR[region]] if tier == "quick" else [RX2DR[region], 0, r.choice(list(machist.DEFINED[region]))]):
                 net = machist.Net(r, region)
                 net.otaa_request(ndraws=30)
+                if joff % 2 == 0:
+                    # a previous session with another RxDelay: the re-join's value (0 = one second) replaces it
+                    net.join_accept(dl_settings=0, rx_delay=r.choice([3, 7, 15]), cflist=b"")
+                    net.snap()
+                    net.send(b"p", 1, False, ndraws=40)
+                    net.rx2c()
+                    net.otaa_request(ndraws=30)
                 net.join_accept(dl_settings=(joff << 4) | rx2, rx_delay=r.choice([0, 1, 2, 5]), cflist=b"")
                 net.snap()
                 for dr in machist.UPLINK_DR[region]:
@@ -92,7 +99,7 @@ def oracle(case, impl, model=None):
     fam = DRS[FAM[region]]
     inv = {v: k for k, v in fam.items()}
     off = rx2dr = rx2f = None
-    appkey = join_off = None
+    appkey = join_off = join_delay = None
     delay = 1000
     exp_dl = {}          # channel index -> downlink frequency negotiated by an effective DlChannelReq (dynamic plans)
     track = region not in machist.FIXED
@@ -113,6 +120,14 @@ def oracle(case, impl, model=None):
             if len(pt) >= 12:
                 joff = (pt[10] >> 4) & 7
                 join_off = joff if joff <= RP_MAX_RX1_OFFSET[region] else None
+                join_delay = 1000 if (pt[11] & 15) <= 1 else (pt[11] & 15) * 1000      # RxDelay: 0 and 1 both mean one second
+        if a[0] == "snap" and join_delay is not None:
+            md = re.search(r"rx1_delay=(\d+)", o)
+            if md:
+                if int(md.group(1)) != join_delay:
+                    return {"kind": "the RX1 delay of the accepted JoinAccept (RxDelay, 0 = 1 s) is not in force", "join_accept_delay_ms": join_delay,
+                            "device_delay_ms": int(md.group(1))}
+                join_delay = None
         if a[0] == "snap" and join_off is not None:
             mj = re.search(r"rx1off=(\d+)", o)
             if mj:
